@@ -105,9 +105,16 @@ def cli_args(cfg, data, threads=1, alt=False, saves=None, force=False):
     if cfg.get("multi"):
         inp = ["--bam_list", p["bam_list"]]
     a = ["--threads", str(threads)] + inp + ["--reference", p["ref"], "--data_type", "nanopore"] + \
-        ([] if cfg.get("multi") else ["-p", cfg.get("prefix", PREFIX)]) + ["--no_gzip"] + (["--force"] if force else [])
+        ([] if cfg.get("multi") else ["-p", cfg.get("prefix", PREFIX)]) + ([] if cfg.get("gzip") else ["--no_gzip"]) + \
+        (["--force"] if force else [])
     if cfg.get("sqanti"):
         a += ["--sqanti_output"]
+    if cfg.get("count_exons"):
+        a += ["--count_exons"]
+    if cfg.get("no_model"):
+        a += ["--no_model_construction"]
+    if cfg.get("high_memory"):
+        a += ["--high_memory"]
     if cfg.get("genedb", True):
         a += ["--genedb", p["db"], "--complete_genedb"]
     if cfg.get("rg") == "inline":
@@ -148,9 +155,23 @@ def final_outputs(outdir, prefix=PREFIX):
                     res[fn] = hashlib.sha1(P.strip_cmdline(f.read()).encode()).hexdigest()
         return res
     for fn, p in P.out_files(outdir, prefix).items():
-        with open(p, errors="replace") as f:
-            res[fn] = hashlib.sha1(P.strip_cmdline(f.read()).encode()).hexdigest()
+        res[fn] = hashlib.sha1(P.strip_cmdline(read_output(p)).encode()).hexdigest()
     return res
+
+
+def read_output(p):
+    """text of a final file; a gzip stream is compared by its decompressed content (the gzip header carries the time
+    of the run), a stream that cannot be read to its end (truncated, no trailer) by its raw bytes + a marker"""
+    if p.endswith(".gz"):
+        import gzip
+        try:
+            with gzip.open(p, "rt", errors="replace") as f:
+                return f.read()
+        except (EOFError, OSError, ValueError) as ex:
+            with open(p, "rb") as f:
+                return "UNREADABLE GZIP STREAM (%s) %s" % (type(ex).__name__, hashlib.sha1(f.read()).hexdigest())
+    with open(p, errors="replace") as f:
+        return f.read()
 
 
 def run_wrapped(workdir, cfg, data, crash=None, resume=False, threads=1, timeout=600, args=None, state="state"):
@@ -161,7 +182,9 @@ def run_wrapped(workdir, cfg, data, crash=None, resume=False, threads=1, timeout
     env = {"ABLAB_ISOQUANT_VERIF": "1", "VERIF_C07_STATE": state, "VERIF_REPO": P.REPO}
     if crash:
         env["VERIF_C07_CRASH"] = "%d:%s" % crash
-    args = ["--resume"] if resume else (args if args is not None else cli_args(cfg, data, threads))
+    # `--resume` takes only --output/--threads/--debug/--high_memory/--keep_tmp; --high_memory is NOT restored from .params
+    args = (["--resume"] + (["--high_memory"] if cfg.get("resume_high_memory") else [])) if resume else \
+        (args if args is not None else cli_args(cfg, data, threads))
     rc, log = P.run_isoquant(os.path.join(workdir, "out"), args, home=os.path.join(workdir, "home"), env=env,
                              wrapper=WRAP, timeout=timeout)
     return rc, log, read_trace(state)
